@@ -187,7 +187,8 @@ class SpawnProcess(multiprocessing.context.SpawnProcess):
             if record is None:
                 break
             logger = logging.getLogger(record.name)
-            if record.levelno >= logger.getEffectiveLevel():
+            if logger.isEnabledFor(record.levelno):
+                # (this also honours `logging.disable`, like a record emitted in this process)
                 logger.handle(record)
 
     def _collect_result(self):
